@@ -5,11 +5,13 @@ import (
 	"errors"
 	"io"
 	"log"
+	"net"
 	"net/http"
 	"net/http/httptest"
 	"time"
 
 	"github.com/gofiber/fiber/v2"
+	"github.com/junioryono/godi/v4"
 )
 
 // Transports.
@@ -31,17 +33,27 @@ type app interface {
 }
 
 // httpApp drives an http.Handler through a recorder or a real server.
+type appCtxMark struct{}
+
 type httpApp struct {
-	h   http.Handler
-	srv *httptest.Server
-	cl  *http.Client
+	base context.Context // AppCtx cases: derived from the application scope's context
+	h    http.Handler
+	srv  *httptest.Server
+	cl   *http.Client
 }
 
-func newHTTPApp(h http.Handler, transport string) *httpApp {
+func newHTTPApp(h http.Handler, transport string, app godi.Scope) *httpApp {
 	a := &httpApp{h: h}
+	if app != nil {
+		a.base = context.WithValue(app.Context(), appCtxMark{}, true)
+	}
 	if transport == TrServer {
 		a.srv = httptest.NewUnstartedServer(h)
 		a.srv.Config.ErrorLog = log.New(io.Discard, "", 0)
+		if a.base != nil {
+			base := a.base
+			a.srv.Config.BaseContext = func(net.Listener) context.Context { return base }
+		}
 		a.srv.Start()
 		// one connection per request: net/http's client silently re-sends an idempotent request
 		// when a reused connection dies without a response (which is what a handler panic under
@@ -64,6 +76,9 @@ func (a *httpApp) do(st *reqState) {
 	if a.srv == nil {
 		req := httptest.NewRequest(http.MethodGet, path, nil)
 		req.Header.Set(hdrReq, st.key)
+		if a.base != nil {
+			req = req.WithContext(a.base)
+		}
 		rec := httptest.NewRecorder()
 		func() {
 			defer func() {
